@@ -38,6 +38,7 @@ REQUIRED = ("records", "rejected_ops", "worker_state_comparisons", "prefix_repla
             "thread_schedules_both_paused", "cluster_gap_scenarios", "redis_prefix_scenarios", "logs_with_a_pickled_worker", "cluster_gap_long_scenarios")
 SHARDS = {"quick": 12, "thorough": 16}
 WATCHDOG_S = {"quick": 900, "thorough": 4 * 3600}
+BUDGET_S = {"quick": 600, "thorough": 2400}
 FLAVOURS = ["file", "file_openlock", "redis", "file_snapshot"]
 
 
